@@ -40,7 +40,21 @@ inductive Outcome where
 
 def waiters (w : World) : String :=
   String.ofList ((Src.all.filter fun x => (w.sem x).waiting).map Src.letter ++
-    (if w.silentWaiting then ['z'] else []))
+    (if w.silentWaiting then ['z'] else []) ++ (if w.doneWaiting then ['j'] else []))
+
+/-- the consumer task ends (its `Payload` is dropped); whoever joins it is woken -/
+def finishConsumer (w : World) (rid : Nat) : World :=
+  let w := { dropReader w rid with consumer := none }
+  if w.doneWaiting then { w with doneWaiting := false, woken := true } else w
+
+/-- wake-driven read-to-end: poll until `Pending` (`true` = the stream ended) -/
+def consumeAll : Nat → World → Nat → Bool × World
+  | 0, w, _ => (false, w.outOfFuel)
+  | fuel + 1, w, rid =>
+    match chanPollNext w rid .consumer with
+    | (.item _, w') => consumeAll fuel w' rid
+    | (.pending, w') => (false, w')
+    | (_, w') => (true, w')
 
 /-- one scripted step of the task that owns a moved payload (`c04_sim.rs` `consumer_step`) -/
 def consumerStep (w : World) : World :=
@@ -49,14 +63,35 @@ def consumerStep (w : World) : World :=
   | some (rid, steps) =>
     match steps with
     | .read :: rest =>
+      -- a scripted step followed by the wake-driven one: the task simply goes on running
+      let goesOn := rest.head? == some .readAllWake
       match chanPollNext w rid .consumer with
-      | (.item _, w') => { w' with consumer := some (rid, rest) }
-      | (.pending, w') => { w' with consumer := some (rid, rest) }
-      | (_, w') => { dropReader w' rid with consumer := none }
-    | _ => { dropReader w rid with consumer := none }
+      | (.item _, w') =>
+        { w' with consumer := some (rid, rest), consumerWoken := w'.consumerWoken || goesOn }
+      | (.pending, w') =>
+        { w' with consumer := some (rid, rest), consumerWoken := w'.consumerWoken || goesOn }
+      | (_, w') => finishConsumer w' rid
+    | .readAllWake :: rest =>
+      match consumeAll ((w.chan rid).items.length + 2) w rid with
+      | (false, w') => w'
+      | (true, w') => finishConsumer w' rid
+    | _ => finishConsumer w rid
+
+/-- parked on a wake-driven step: runs only when its own waker fires -/
+def consumerParked (w : World) : Bool :=
+  match w.consumer with
+  | some (_, .readAllWake :: _) => true
+  | _ => false
+
+/-- `run_consumer_if_woken`: the executor's second task -/
+def runConsumerIfWoken (w : World) : Bool × World :=
+  if w.consumerWoken then
+    let w := { w with consumerWoken := false }
+    if consumerParked w then (true, consumerStep w) else (false, w)
+  else (false, w)
 
 def fireEv (w : World) (x : Src) : World :=
-  if x = .c then consumerStep w else w.fire x
+  if x = .c then (if consumerParked w then w else consumerStep w) else w.fire x
 
 def evName (forced : Bool) (x : Src) : String :=
   (if forced then "!" else "") ++ String.singleton x.letter
@@ -78,7 +113,7 @@ def deliverOne (s : Sys) (forced : Bool) : Bool × Sys :=
   | [] =>
     let (w, tr, any) := fireWaiters forced Src.waitable s.w s.trace false
     if any then (true, { s with w := w, trace := tr })
-    else if s.w.consumer.isSome then
+    else if s.w.consumer.isSome && !consumerParked s.w then
       (true, { s with w := consumerStep s.w, trace := evName forced .c :: s.trace })
     else (false, s)
 
@@ -107,6 +142,8 @@ inductive IdleRes where
 def idleLoop : Nat → Sys → IdleRes × Sys
   | 0, s => (.final .stalled, s)
   | fuel + 1, s =>
+    let (ran, w) := runConsumerIfWoken s.w
+    let s := { s with w := w, trace := if ran then "C" :: s.trace else s.trace }
     if s.w.woken then (.runnable, s)
     else
       match deliverOne s false with
@@ -145,7 +182,9 @@ def probeRun (e : Env) (bigFuel : Nat) : Nat → D → World → Bool × D × Wo
   | 0, d, w => (false, d, w)
   | n + 1, d, w =>
     match pollTop e bigFuel d { w with woken := false } with
-    | (.pending, d', w') => if w'.woken then probeRun e bigFuel n d' w' else (false, d', w')
+    | (.pending, d', w') =>
+      let w' := (runConsumerIfWoken w').2
+      if w'.woken then probeRun e bigFuel n d' w' else (false, d', w')
     | (_, d', w') => (true, d', w')
 
 /-- The quiescence probe (`c04_sim.rs`): does a spurious poll of a task that is Pending and not
@@ -175,7 +214,8 @@ def run (e : Env) (bigFuel : Nat) : Nat → Sys → Outcome × Sys
       | (.ready, d, w) => (.ok, { s with d := d, w := w })
       | (.err k, d, w) => (.err k, { s with d := d, w := w })
       | (.pending, d, w) =>
-        let s := { s with d := d, w := w }
+        let (ran, w) := runConsumerIfWoken w
+        let s := { s with d := d, w := w, trace := if ran then "C" :: s.trace else s.trace }
         if w.woken then
           if s.consecutive + 1 < fair then run e bigFuel fuel { s with consecutive := s.consecutive + 1 }
           else
